@@ -429,6 +429,16 @@ DiskConsistent ==
 \* outcome "done"
 NeverStuck == pc # "idle" => ENABLED Normal
 
+\* Liveness proper (checked by TLC under weak fairness of the process's own
+\* steps, no state constraint): every started run ends - completed, paused
+\* by an interrupt, or killed - there is no cycle of retries or re-saves in
+\* which a run goes on for ever; and a run that starts when no fault can occur
+\* any more (the budgets are used up) ends "done".
+LiveSpec == Init /\ [][Next]_vars /\ WF_vars(Normal)
+EveryRunEnds == (pc # "idle") ~> (pc = "idle")
+UndisturbedRunCompletes ==
+  [](pc = "load" /\ kills = MaxKills /\ interrupts = MaxInterrupts => <>(pc = "idle" /\ outcome = "done"))
+
 TypeOK ==
   /\ disk.kind \in {"absent", "empty", "torn", "valid"}
   /\ pc \in {"idle", "load", "min", "ee", "succ", "cs", "incr", "iterend", "advance",
